@@ -1,0 +1,152 @@
+// Copyright © 2022-2026 Obol Labs Inc. Licensed under the terms of a Business Source License 1.1
+
+//go:build verif
+
+package dkg
+
+import (
+	"context"
+	"maps"
+	"time"
+
+	eth2p0 "github.com/attestantio/go-eth2-client/spec/phase0"
+	"github.com/libp2p/go-libp2p/core/host"
+	"github.com/libp2p/go-libp2p/core/peer"
+
+	"github.com/obolnetwork/charon/cluster"
+	"github.com/obolnetwork/charon/core"
+	pbv1 "github.com/obolnetwork/charon/core/corepb/v1"
+	"github.com/obolnetwork/charon/dkg/share"
+	"github.com/obolnetwork/charon/tbls"
+)
+
+// This file is only compiled with the "verif" build tag. It exports the unexported ceremony glue
+// of this package that runs after the key-generation rounds (dkg.go, exchanger.go, disk.go) to the
+// verification harness under Verif* names. It adds no behaviour to any existing function.
+
+// VerifCreateDistValidators is createDistValidators.
+func VerifCreateDistValidators(shares []share.Share, depositDatas [][]eth2p0.DepositData, valRegs []core.VersionedSignedValidatorRegistration) ([]cluster.DistValidator, error) {
+	return createDistValidators(shares, depositDatas, valRegs)
+}
+
+// VerifSignLockHash is signLockHash.
+func VerifSignLockHash(shareIdx int, shares []share.Share, hash []byte) (core.ParSignedDataSet, error) {
+	return signLockHash(shareIdx, shares, hash)
+}
+
+// VerifAggLockHashSig is aggLockHashSig.
+func VerifAggLockHashSig(data map[core.PubKey][]core.ParSignedData, shares map[core.PubKey]share.Share, hash []byte) (tbls.Signature, []tbls.PublicKey, error) {
+	return aggLockHashSig(data, shares, hash)
+}
+
+// VerifSignDepositMsgs is signDepositMsgs.
+func VerifSignDepositMsgs(shares []share.Share, shareIdx int, withdrawalAddresses []string, network string, amount eth2p0.Gwei, compounding bool) (core.ParSignedDataSet, map[core.PubKey]eth2p0.DepositMessage, error) {
+	return signDepositMsgs(shares, shareIdx, withdrawalAddresses, network, amount, compounding)
+}
+
+// VerifAggDepositData is aggDepositData.
+func VerifAggDepositData(data map[core.PubKey][]core.ParSignedData, shares []share.Share, msgs map[core.PubKey]eth2p0.DepositMessage, network string) ([]eth2p0.DepositData, error) {
+	return aggDepositData(data, shares, msgs, network)
+}
+
+// VerifSignValidatorRegistrations is signValidatorRegistrations.
+func VerifSignValidatorRegistrations(shares []share.Share, shareIdx int, feeRecipients []string, gasLimit uint64, forkVersion []byte) (core.ParSignedDataSet, map[core.PubKey]core.VersionedSignedValidatorRegistration, error) {
+	return signValidatorRegistrations(shares, shareIdx, feeRecipients, gasLimit, forkVersion)
+}
+
+// VerifAggValidatorRegistrations is aggValidatorRegistrations.
+func VerifAggValidatorRegistrations(data map[core.PubKey][]core.ParSignedData, shares []share.Share, msgs map[core.PubKey]core.VersionedSignedValidatorRegistration, forkVersion []byte) ([]core.VersionedSignedValidatorRegistration, error) {
+	return aggValidatorRegistrations(data, shares, msgs, forkVersion)
+}
+
+// VerifCheckThreshold is checkThreshold.
+func VerifCheckThreshold(ctx context.Context, threshold, numOperators int) error {
+	return checkThreshold(ctx, threshold, numOperators)
+}
+
+// VerifGetExistingShares is getExistingShares.
+func VerifGetExistingShares(conf *AppendConfig) ([]share.Share, error) {
+	return getExistingShares(conf)
+}
+
+// VerifWriteKeysToDisk is writeKeysToDisk.
+func VerifWriteKeysToDisk(conf Config, shares []share.Share) error {
+	return writeKeysToDisk(conf, shares)
+}
+
+// VerifWriteLock is writeLock.
+func VerifWriteLock(datadir string, lock cluster.Lock) error {
+	return writeLock(datadir, lock)
+}
+
+// VerifVerifyPeerShareIdx is verifyPeerShareIdx.
+func VerifVerifyPeerShareIdx(peerMap map[peer.ID]cluster.NodeIdx, sender peer.ID, data core.ParSignedData) error {
+	return verifyPeerShareIdx(peerMap, sender, data)
+}
+
+// VerifSigTypes returns the values of sigLock, sigValidatorRegistration and sigDepositData.
+func VerifSigTypes() (int, int, int) {
+	return int(sigLock), int(sigValidatorRegistration), int(sigDepositData)
+}
+
+// VerifExchanger wraps an exchanger.
+type VerifExchanger struct {
+	ex *exchanger
+}
+
+// VerifNewExchanger is newExchanger with the sigTypes Run passes (handlers are registered on p2pNode).
+func VerifNewExchanger(p2pNode host.Host, peerIdx int, peers []peer.ID, peerMap map[peer.ID]cluster.NodeIdx, timeout time.Duration) (*VerifExchanger, error) {
+	ex, err := newExchanger(p2pNode, peerIdx, peers, peerMap, []sigType{sigLock, sigDepositData, sigValidatorRegistration}, timeout)
+	if err != nil {
+		return nil, err
+	}
+
+	return &VerifExchanger{ex: ex}, nil
+}
+
+// Exchange is exchanger.exchange.
+func (v *VerifExchanger) Exchange(ctx context.Context, st int, set core.ParSignedDataSet) (map[core.PubKey][]core.ParSignedData, error) {
+	return v.ex.exchange(ctx, sigType(st), set)
+}
+
+// Handle passes a partial signature set to the receive handler the exchanger's parsigex registered
+// with libp2p, as if it had arrived from sender.
+func (v *VerifExchanger) Handle(ctx context.Context, sender peer.ID, duty core.Duty, set core.ParSignedDataSet) error {
+	pb, err := core.ParSignedDataSetToProto(set)
+	if err != nil {
+		return err
+	}
+
+	_, _, err = v.ex.sigex.VerifHandle(ctx, sender, &pbv1.ParSigExMsg{Duty: core.DutyToProto(duty), DataSet: pb})
+
+	return err
+}
+
+// Store returns a copy of the partial signatures collected so far for a sigType (sigData.store).
+func (v *VerifExchanger) Store(st int) map[core.PubKey][]core.ParSignedData {
+	v.ex.sigData.lock.Lock()
+	defer v.ex.sigData.lock.Unlock()
+
+	return maps.Clone(v.ex.sigData.store[sigType(st)])
+}
+
+// VerifSignAndAggDepositData is signAndAggDepositData over the wrapped exchanger.
+func VerifSignAndAggDepositData(ctx context.Context, ex *VerifExchanger, shares []share.Share, withdrawalAddresses []string,
+	network string, nodeIdx cluster.NodeIdx, depositAmounts []eth2p0.Gwei, compounding bool,
+) ([][]eth2p0.DepositData, error) {
+	return signAndAggDepositData(ctx, ex.ex, shares, withdrawalAddresses, network, nodeIdx, depositAmounts, compounding)
+}
+
+// VerifSignAndAggValidatorRegistrations is signAndAggValidatorRegistrations over the wrapped exchanger.
+func VerifSignAndAggValidatorRegistrations(ctx context.Context, ex *VerifExchanger, shares []share.Share, feeRecipients []string,
+	targetGasLimit uint64, nodeIdx cluster.NodeIdx, forkVersion []byte,
+) ([]core.VersionedSignedValidatorRegistration, error) {
+	return signAndAggValidatorRegistrations(ctx, ex.ex, shares, feeRecipients, targetGasLimit, nodeIdx, forkVersion)
+}
+
+// VerifSignAndAggLockHash is signAndAggLockHash (no existing shares, no append config) over the wrapped exchanger.
+func VerifSignAndAggLockHash(ctx context.Context, shares []share.Share, def cluster.Definition, nodeIdx cluster.NodeIdx,
+	ex *VerifExchanger, depositDatas [][]eth2p0.DepositData, valRegs []core.VersionedSignedValidatorRegistration,
+) (cluster.Lock, error) {
+	return signAndAggLockHash(ctx, nil, shares, def, nodeIdx, ex.ex, depositDatas, valRegs, nil)
+}
